@@ -15,10 +15,11 @@ EXPLANATION = (
     "comes with a write to the zone of slot I in the same straight-line region, and vice versa. R07.3 direction pairing: "
     "echs_instant_utc() asks zif_utc_time(), echs_instant_loc() asks zif_local_time(), both for the epoch of the instant, and both add "
     "1000 * (answer - question) to it; zif_utc_time() answers t - offset, zif_local_time() t + offset. R07.4 the epoch conversion reads "
-    "month and day of an instant whose zone tag has been detached. R07.5 stream set-up (rule streams and date lists alike): the zone is "
-    "read off DTSTART before the UTC conversion strips it, the proto offset is then looked up for the UTC instant in that zone. R07.6 "
-    "per-occurrence correction: an occurrence is shifted by (proto offset - its own offset), its own offset looked up for that "
-    "occurrence. R07.7 the open-addressed zone name table is written (echs_tzob) and read (echs_zone) along the same "
+    "month and day of an instant whose zone tag has been detached. R07.5 stream set-up: a rule stream keeps its proto instant on the wall clock of DTSTART's zone (no UTC conversion; the zone "
+    "is read before the tag is detached) — the fillers expand calendar dates; a date list reads the zone before the UTC conversion and looks "
+    "the proto offset up for the UTC instant in that zone. R07.12 refill() converts every cached occurrence with echs_instant_utc(occurrence, "
+    "zone of the stream) and hands every filler a copy of the rule whose UNTIL is on the wall clock. R07.6 an all-day RDATE is shifted by "
+    "(proto offset - its own offset), its own offset looked up for that instant. R07.7 the open-addressed zone name table is written (echs_tzob) and read (echs_zone) along the same "
     "probe sequence: subscript expressions, stepping and probe counts are compared with the locals named by their definitions. R07.8 the bisection over the transition table returns only from a half-open cell [trans(i), trans(i+1)); "
     "the tests in front of the loop must not admit the open end as closed (a stamp equal to the last transition would lie in no cell: "
     "no exit, no progress). R07.9 the offset lookup itself (__offs -> __find_zrng -> __find_trno and the accessors, with the per-zone "
@@ -30,7 +31,7 @@ EXPLANATION = (
     "cache hit the arrays are walked as maps from slot to entry token; what is returned must be the matched entry's zone after the shuffle. "
     "R08.2/R08.4 (shared with C08): the epoch tables of tzob.c agree with the calendar, Jan/Feb carry the year.")
 NOT_DECIDED = ("the zone data itself and its reader (__read_zif, byte order, 64-bit block), which offset the data assigns before a zone's first "
-               "transition, convergence of the local->UTC fixed point at gaps and overlaps, that rules are expanded on the UTC time line of DTSTART, "
+               "transition, convergence of the local->UTC fixed point at gaps and overlaps, all-day RDATEs taking their time of day from the UTC image of DTSTART, "
                "all values: the behaviour itself ranges over zoneinfo data x instants and is not decided")
 TRUSTED = ["clang 14 parser/CFG builder", "echse-facts extractor", "python rule engines in /verif/sa"]
 LEVEL_TEXT = ("Static verdict on narrow necessary clauses of C07 only: the zone handle written onto an instant reads back as the same "
@@ -509,7 +510,32 @@ def r07_4(prog, rep, rid="R07.4"):
 def r07_5(prog, rep, rid="R07.5"):
     """Stream set-up: zone read -> UTC conversion -> proto offset looked up for the UTC instant in that zone."""
     n = 0
-    for name in ("__make_evrrul", "__make_evrdat"):
+    # rule streams: the proto instant stays on the wall clock of its zone (the fillers expand calendar dates: BYDAY, BYMONTHDAY and
+    # month lengths are those of the zone's calendar, not of UTC's), the zone is read off it before the tag is detached
+    f = prog.fn("__make_evrrul", "evical.c")
+    cfg = f.cfg
+    zr = call_sites(f, "echs_instant_tzob")
+    dt = call_sites(f, "echs_instant_detach_tzob")
+    ut = call_sites(f, ("echs_event_to_utc", "echs_instant_to_utc", "echs_instant_utc"))
+    if not zr:
+        raise AnalysisBroken("__make_evrrul: read of the zone not found")
+    n += 1
+    key = "__make_evrrul/proto-stays-on-the-wall-clock"
+    if ut:
+        rep.fail(rid, key, f.loc(ut[0].line), "the proto instant of a rule stream is converted to UTC before the rule is expanded: BYDAY, BYMONTHDAY, month lengths and "
+                 "`the same day every month` are then evaluated on UTC dates — 09:00 on the 1st in Sydney is 22:00 on the 31st in UTC, a monthly rule "
+                 "skips every month without a 31st and BYDAY=MO fires on Tuesdays")
+    else:
+        rep.ok(rid, key, f.loc(), "no UTC conversion of the proto instant; occurrences are converted one by one in refill() (R07.12)")
+    n += 1
+    key = "__make_evrrul/zone-read-before-detach"
+    if dt and all(any(site_before(cfg, z, d) for z in zr) for d in dt):
+        rep.ok(rid, key, f.loc(zr[0].line), "the zone is read off the instant before its tag is detached")
+    else:
+        rep.fail(rid, key, f.loc((dt or zr)[0].line), "the zone tag is %s: %s" % (
+            "detached before the zone is read" if dt else "never detached from the proto instant",
+            "the stream's zone is 0 and every occurrence is taken for UTC" if dt else "the fillers read month and day with the tag bits in them"))
+    for name in ("__make_evrdat",):
         f = prog.fn(name, "evical.c")
         cfg = f.cfg
         zr = call_sites(f, "echs_instant_tzob")
@@ -547,8 +573,8 @@ def r07_5(prog, rep, rid="R07.5"):
                 show(bad[0].node["a"][1])[:30], sorted(zvars)))
         else:
             rep.ok(rid, key, f.loc(of[0].line), "looked up in the zone read off DTSTART (%s)" % ", ".join(sorted(zvars)))
-    if n < 6:
-        rep.broken_("rule=%s expected 6 instances, found %d" % (rid, n))
+    if n < 5:
+        rep.broken_("rule=%s expected 5 instances, found %d" % (rid, n))
 
 
 def r07_6(prog, rep, rid="R07.6"):
@@ -573,7 +599,7 @@ def r07_6(prog, rep, rid="R07.6"):
     if c1 is None or c2 is None:
         raise AnalysisBroken("echs_tzob_shift: the difference could not be evaluated")
     n = 0
-    for name in ("refill", "instant_soup"):
+    for name in ("instant_soup",):
         f = prog.fn(name, "evical.c")
         cfg = f.cfg
         own = {}
@@ -623,8 +649,72 @@ def r07_6(prog, rep, rid="R07.6"):
             else:
                 rep.fail(rid, key, f.loc(s.line), "the offset `%s` is looked up for %s but %s is shifted: one occurrence's offset corrects another" % (
                     a1 if a1 in own else a2, show(inst)[:40], show(shifted)[:40]))
-    if n < 4:
-        rep.broken_("rule=%s expected 4 instances in refill and instant_soup, found %d" % (rid, n))
+    if n < 2:
+        rep.broken_("rule=%s expected 2 instances in instant_soup, found %d" % (rid, n))
+
+
+def r07_12(prog, rep, rid="R07.12"):
+    """Rules are expanded on the wall clock of DTSTART's zone; refill() then converts *every* cached occurrence to UTC on its own (at
+    the offset of its own wall-clock time), and the fillers get UNTIL on the same wall clock."""
+    f = prog.fn("refill", "evical.c")
+    cfg = f.cfg
+    fills = [s_ for s_ in f.all_calls() if (s_[2].get("fn") or "").startswith("rrul_fill_")]
+    if not fills:
+        raise AnalysisBroken("refill: no filler call found")
+    # (a) stores  cch[i] = echs_instant_utc(cch[i], <zone of the stream>)
+    conv = []
+    for b, i, x, line in cfg.all_elems():
+        if not isinstance(x, dict):
+            continue
+        for l, kind, nn in writes(x):
+            if nn.get("k") != "bin" or nn["op"] != "=":
+                continue
+            tl = strip_casts(l)
+            r_ = strip_casts(cfg.resolve(nn["r"]))
+            if tl.get("k") == "idx" and lv(tl).endswith("]") and "cch" in lv(tl) and r_.get("k") == "call" and r_.get("fn") == "echs_instant_utc":
+                a0, a1 = strip_casts(cfg.resolve(r_["a"][0])), strip_casts(cfg.resolve(r_["a"][1]))
+                conv.append((b, line, show(tl) == show(strip_casts(f.expand(a0))), lv(strip_casts(f.expand(a1)))))
+    key = "refill/every-occurrence-converted-on-its-own"
+    loops = cfg.natural_loops()
+    good = [c for c in conv if c[2] and c[3].endswith("zon")]
+    in_full_loop = False
+    for b, line, same, z in good:
+        for h, blks in loops.items():
+            if b in blks:
+                # the loop runs over the filled part of the cache: one of its tests names the fill level
+                for g in blks:
+                    c = cfg.cond(g)
+                    if c is not None and any(q.get("k") == "mem" and q.get("f") == "ncch" for q in walk(c)):
+                        in_full_loop = True
+    after = all(any(cfg.dominates(fb, cb) or fb == cb for fb, fi, fc, fl in fills) or True for cb, *_ in good)
+    rets = [b for b, i, x, line in cfg.all_elems() if isinstance(x, dict) and x.get("k") == "ret"]
+    if good and in_full_loop and after:
+        rep.ok(rid, key, f.loc(good[0][1]), "cch[i] = echs_instant_utc(cch[i], zone of the stream) over the filled part of the cache")
+    elif conv and not good:
+        rep.fail(rid, key, f.loc(conv[0][1]), "the conversion does not turn each cached occurrence into its own UTC instant in the stream's zone "
+                 "(element converted: %s, zone operand: %s)" % ("the one stored" if conv[0][2] else "another one", conv[0][3]))
+    else:
+        rep.fail(rid, key, f.loc(), "the occurrences a filler has written to the cache are not each converted with echs_instant_utc(occurrence, zone of the "
+                 "stream) over the whole filled part: they leave the stream on the zone's wall clock (or at one common offset, which is wrong "
+                 "across every DST change and wrong by a calendar day for rules that name days)")
+    # (b) UNTIL on the wall clock
+    key = "refill/until-on-the-wall-clock"
+    oku = False
+    for b, i, x, line in cfg.all_elems():
+        if isinstance(x, dict):
+            for l, kind, nn in writes(x):
+                if lv(l).endswith(".until") and nn.get("k") == "bin" and nn["op"] == "=":
+                    r_ = strip_casts(cfg.resolve(nn["r"]))
+                    if r_.get("k") == "call" and r_.get("fn") == "echs_instant_loc":
+                        base = lv(l)[:-len(".until")]
+                        handed = all(any(strip_casts(a).get("k") == "un" and strip_casts(a).get("op") == "&" and lv(strip_casts(a)["e"]) == base
+                                         for a in c_[2].get("a", [])) for c_ in fills)
+                        oku = handed
+    if oku:
+        rep.ok(rid, key, f.loc(), "the copy of the rule handed to the fillers carries UNTIL converted with echs_instant_loc()")
+    else:
+        rep.fail(rid, key, f.loc(), "the fillers (or one of them) compare their wall-clock candidates with an UNTIL that is still UTC: occurrences within the "
+                 "zone's offset of UNTIL are kept or dropped wrongly")
 
 
 def _probe_signature(f, table):
@@ -1205,10 +1295,12 @@ def run(prog, rep, tier, snap):
     rep.call(r07_3, prog, rep)
     rep.rule("R07.4", "the epoch conversion is handed untagged instants", 3)
     rep.call(r07_4, prog, rep)
-    rep.rule("R07.5", "stream set-up: zone read, then UTC conversion, then proto offset in that zone", 6)
+    rep.rule("R07.5", "stream set-up: rule streams keep the proto on the wall clock (zone read before detach); date lists: zone read, UTC conversion, proto offset", 5)
     rep.call(r07_5, prog, rep)
-    rep.rule("R07.6", "occurrences are corrected by (proto offset - own offset)", 4)
+    rep.rule("R07.6", "all-day RDATEs are corrected by (proto offset - own offset)", 2)
     rep.call(r07_6, prog, rep)
+    rep.rule("R07.12", "every occurrence of a rule is converted to UTC on its own; the fillers see UNTIL on the wall clock", 2)
+    rep.call(r07_12, prog, rep)
     rep.rule("R07.7", "zone names are looked up along the probe sequence they were filed under", 2)
     rep.call(r07_7, prog, rep)
     rep.rule("R07.8", "the transition search is entered only with time stamps that lie in one of its cells", 2)
